@@ -9,14 +9,16 @@ NOTE = ("Trusted: Coq 8.16.1 kernel (vm_compute; no native_compute); no axioms (
         "for the failing-input search only. ")
 
 CLAIMED = {
- "C23": ("PARTIAL. Every panic/assert/unwrap/unreachable site of the modelled code is an explicit outcome of the model. Proved for ALL "
-         "goals, states, definitions and fuel (no well-formedness assumption): the only sites any execution reaches are the documented "
-         "ill-formedness assertions (distinctfd on a non-list / non-integer element, an FD relation built on an operand that is neither "
-         "variable nor integer, labeling without a domain, an undefined relation) and the disequality-key assertion; the sites of "
-         "exclude_from_domain, update_var_domain, the timesz division and a second visit of a project goal are unreachable. Tied to the "
-         "code by running the programs of every generator of the framework on a debug build under a panic hook; any panic is a violation.",
-         "6/C23", "Coq proof: classification of the reachable panic sites over all programs (state layer, goal construction, streams, Solver::next) + all-generator panic sweep on a debug build",
-         "The assertion that stored disequality keys are unbound (site 22) is observed, not proved; integer overflow, stack depth and allocation failure are outside the model."),
+ "C23": ("Every panic/assert/unwrap/unreachable site of the modelled code is an explicit outcome of the model. Proved for ALL goals, states, "
+         "definitions and fuel (no well-formedness assumption): the only sites any execution reaches are the documented ill-formedness "
+         "assertions (distinctfd on a non-list / non-integer element, an FD relation built on an operand that is neither variable nor "
+         "integer, labeling without a domain, an undefined relation); the sites of exclude_from_domain, update_var_domain, the timesz "
+         "division and a second visit of a project goal are unreachable; and for every query (the goal proto_vulcan_query! builds from any "
+         "body) the disequality-key assertion is unreachable, by the invariant 'constraint identities unique, keys of stored disequalities "
+         "unbound', which run_constraints re-establishes from any state and which therefore holds in every state the search still uses. "
+         "Tied to the code by running the programs of every generator of the framework on a debug build under a panic hook.",
+         "6/C23", "Coq proof: classification of the reachable panic sites over all programs + store invariant excluding the disequality-key assertion for every query + all-generator panic sweep on a debug build",
+         "Integer overflow outside FiniteDomain, stack depth and allocation failure are outside the model (magnitudes kept small; C18 covers the extremes)."),
  "C11": ("Theorems over the engine model: project |x..| { body } builds its body per arriving state from the walk* of the listed variables in "
          "that state, so reaching the goal from several states (a preceding disjunction, repeated solving) gives each state its own terms, "
          "never a panic outcome; unlisted variables are untouched. Tied to the code by project programs (sq fngoal under disjunctions, "
